@@ -5,56 +5,6 @@ import RedisVerif.Model.Cluster
 namespace RedisVerif
 namespace Shard
 
-/-! ### equations of the record functions by case -/
-
-theorem kind_lww {c : Crdt} (h : c.kind = 0) : ∃ r, c = .lww r := by
-  cases c <;> simp [Crdt.kind] at h; exact ⟨_, rfl⟩
-
-theorem kind_hash {c : Crdt} (h : c.kind = 5) : ∃ m, c = .hash m := by
-  cases c <;> simp [Crdt.kind] at h; exact ⟨_, rfl⟩
-
-theorem recordDelete_none {s : Shard} {k : Nat} (hg : NMap.get s.keys k = none) :
-    recordDelete s k = (s, none) := by simp [recordDelete, hg]
-
-theorem recordDelete_lww {s : Shard} {k : Nat} {rv : RV} {r : Lww}
-    (hg : NMap.get s.keys k = some rv) (hc : rv.crdt = .lww r) :
-    recordDelete s k =
-      ({ s with clock := s.clock.tick,
-                keys := NMap.insert k
-                  { rv with crdt := .lww (Lww.delete s.clock.tick), ts := s.clock.tick } s.keys },
-       some { rv with crdt := .lww (Lww.delete s.clock.tick), ts := s.clock.tick }) := by
-  simp [recordDelete, hg, hc]
-
-theorem recordDelete_other {s : Shard} {k : Nat} {rv : RV}
-    (hg : NMap.get s.keys k = some rv) (hc : rv.crdt.kind ≠ 0) :
-    recordDelete s k = (s, some rv) := by
-  simp only [recordDelete, hg]
-  cases h : rv.crdt <;> simp_all [Crdt.kind]
-
-theorem recordHashDelete_none {s : Shard} {k : Nat} {fs : List Nat}
-    (hg : NMap.get s.keys k = none) : recordHashDelete s k fs = (s, none) := by
-  simp [recordHashDelete, hg]
-
-/-- the value `record_hash_delete` stores and emits for a hash value -/
-def hdelValue (s : Shard) (rv : RV) (h : NMap Lww) (fs : List Nat) : RV :=
-  { rv with
-    crdt := .hash (fs.foldl hashDelStep (s.clock, h)).2
-    ts := if fs.isEmpty then rv.ts else (fs.foldl hashDelStep (s.clock, h)).1 }
-
-theorem recordHashDelete_hash {s : Shard} {k : Nat} {fs : List Nat} {rv : RV} {h : NMap Lww}
-    (hg : NMap.get s.keys k = some rv) (hc : rv.crdt = .hash h) :
-    recordHashDelete s k fs =
-      ({ s with clock := (fs.foldl hashDelStep (s.clock, h)).1,
-                keys := NMap.insert k (hdelValue s rv h fs) s.keys },
-       some (hdelValue s rv h fs)) := by
-  simp [recordHashDelete, hg, hc, hdelValue]
-
-theorem recordHashDelete_other {s : Shard} {k : Nat} {fs : List Nat} {rv : RV}
-    (hg : NMap.get s.keys k = some rv) (hc : rv.crdt.kind ≠ 5) :
-    recordHashDelete s k fs = (s, none) := by
-  simp only [recordHashDelete, hg]
-  cases h : rv.crdt <;> simp_all [Crdt.kind]
-
 /-- the value `record_hash_write` stores and emits -/
 def hwriteValue (s : Shard) (k : Nat) (fs : List (Nat × Bytes)) : RV :=
   (recordHashWrite s k fs).2
@@ -88,7 +38,10 @@ theorem local_none (s : Shard) (op : LOp) (h : (step s op.toOp).2 = none) :
       by_cases hc : rv.crdt.kind = 0
       · obtain ⟨r, hr⟩ := kind_lww hc
         rw [recordDelete_lww hg hr] at h; simp at h
-      · rw [recordDelete_other hg hc]
+      · by_cases hc5 : rv.crdt.kind = 5
+        · obtain ⟨m, hm⟩ := kind_hash hc5
+          rw [recordDelete_hash hg hm] at h; simp at h
+        · rw [recordDelete_other hg hc hc5]
   | hdelete k fs =>
     simp only [LOp.toOp, step] at h ⊢
     cases hg : NMap.get s.keys k with
@@ -125,10 +78,16 @@ theorem local_get (s : Shard) (op : LOp) (d : RV) (h : (step s op.toOp).2 = some
         have hd := Option.some.inj h
         simp only
         rw [NMap.get_insert, hd]; simp
-      · rw [recordDelete_other hg hc] at h ⊢
-        have hd := Option.some.inj h
-        simp only
-        rw [hg, hd]
+      · by_cases hc5 : rv.crdt.kind = 5
+        · obtain ⟨m, hm⟩ := kind_hash hc5
+          rw [recordDelete_hash hg hm] at h ⊢
+          have hd := Option.some.inj h
+          simp only
+          rw [NMap.get_insert, hd]; simp
+        · rw [recordDelete_other hg hc hc5] at h ⊢
+          have hd := Option.some.inj h
+          simp only
+          rw [hg, hd]
   | hdelete k fs =>
     simp only [LOp.toOp, step, LOp.key] at h ⊢
     cases hg : NMap.get s.keys k with
@@ -162,7 +121,11 @@ theorem keys_step_other (s : Shard) (op : LOp) (k' : Nat) (hk : k' ≠ op.key) :
       · obtain ⟨r, hr⟩ := kind_lww hc
         rw [recordDelete_lww hg hr]; simp only
         rw [NMap.get_insert]; simp [hk]
-      · rw [recordDelete_other hg hc]
+      · by_cases hc5 : rv.crdt.kind = 5
+        · obtain ⟨m, hm⟩ := kind_hash hc5
+          rw [recordDelete_hash hg hm]; simp only
+          rw [NMap.get_insert]; simp [hk]
+        · rw [recordDelete_other hg hc hc5]
   | hdelete k fs =>
     simp only [LOp.toOp, step, LOp.key] at hk ⊢
     cases hg : NMap.get s.keys k with
@@ -225,10 +188,30 @@ theorem local_below (s : Shard) (op : LOp) (old d : RV) (hinv : s.Inv) (h2 : s.I
       · apply Stamp.lt_asymm
         apply Stamp.lt_of_time_lt
         simp; omega
-    · rw [recordDelete_other hg hc0] at hd
-      have hd' := Option.some.inj hd
-      subst hd'
-      exact below_self old holdwf
+    · by_cases hc5 : old.crdt.kind = 5
+      · obtain ⟨h0, hc⟩ := kind_hash hc5
+        rw [recordDelete_hash hg hc] at hd
+        have hd' := Option.some.inj hd
+        subst hd'
+        have hw0 : NMap.WF h0 := by
+          have := holdwf.1; rw [hc] at this; exact this
+        have hT := hash_regs_le hinv hg hc
+        apply hash_absorb old _ h0 (NMap.mapVal (fun _ => Lww.delete s.clock.tick) h0)
+          s.clock.time hc rfl hw0
+        · refine ⟨NMap.wf_mapVal _ hw0, ?_⟩
+          intro f
+          rw [NMap.get_mapVal]
+          cases hgf : NMap.get h0 f with
+          | none => left; rfl
+          | some r => right; exact ⟨_, rfl, by simp [Lww.delete]⟩
+        · exact hT
+        · apply Stamp.lt_asymm
+          apply Stamp.lt_of_time_lt
+          simp [delHashValue]; omega
+      · rw [recordDelete_other hg hc0 hc5] at hd
+        have hd' := Option.some.inj hd
+        subst hd'
+        exact below_self old holdwf
   | hwrite k fs =>
     simp only [LOp.toOp, step, LOp.key] at hd hg
     have hd' := Option.some.inj hd
@@ -331,17 +314,32 @@ theorem nodewf_step (s : Shard) (op : LOp) (h : s.NodeWF) : (step s op.toOp).1.N
           | some rv => simp; exact (hget k rv hg).2
       · exact h.2 p hp
   | delete k =>
-    simp only [LOp.toOp, step, recordDelete]
-    split
-    · exact h
-    · rename_i rv hg
-      split
-      · refine ⟨h.1, ?_⟩
+    simp only [LOp.toOp, step]
+    cases hg : NMap.get s.keys k with
+    | none => rw [recordDelete_none hg]; exact h
+    | some rv =>
+      by_cases hc0 : rv.crdt.kind = 0
+      · obtain ⟨r, hr⟩ := kind_lww hc0
+        rw [recordDelete_lww hg hr]
+        refine ⟨h.1, ?_⟩
         intro p hp
         rcases NMap.mem_insert hp with hp | hp
         · subst hp; exact ⟨trivial, (hget k rv hg).2⟩
         · exact h.2 p hp
-      · exact h
+      · by_cases hc5 : rv.crdt.kind = 5
+        · obtain ⟨m, hm⟩ := kind_hash hc5
+          rw [recordDelete_hash hg hm]
+          refine ⟨h.1, ?_⟩
+          intro p hp
+          rcases NMap.mem_insert hp with hp | hp
+          · subst hp
+            have := hget k rv hg
+            refine ⟨?_, this.2⟩
+            simp only [delHashValue, Crdt.WF]
+            apply NMap.wf_mapVal
+            have h1 := this.1; rw [hm] at h1; exact h1
+          · exact h.2 p hp
+        · rw [recordDelete_other hg hc0 hc5]; exact h
   | hwrite k fs =>
     simp only [LOp.toOp, step, recordHashWrite]
     refine ⟨h.1, ?_⟩
@@ -413,13 +411,21 @@ theorem inv2_step (s : Shard) (op : LOp) (hinv : s.Inv) (h2 : s.Inv2)
     apply inv2_insert hinv h2 (by simp) (by simp)
     exact Stamp.lt_irrefl _
   | delete k =>
-    simp only [LOp.toOp, step, recordDelete]
-    split
-    · exact h2
-    · split
-      · apply inv2_insert (vc := s.vclock) hinv h2 (by simp) (by simp)
+    simp only [LOp.toOp, step]
+    cases hg : NMap.get s.keys k with
+    | none => rw [recordDelete_none hg]; exact h2
+    | some rv =>
+      by_cases hc0 : rv.crdt.kind = 0
+      · obtain ⟨r, hr⟩ := kind_lww hc0
+        rw [recordDelete_lww hg hr]
+        apply inv2_insert (vc := s.vclock) hinv h2 (by simp) (by simp)
         exact Stamp.lt_irrefl _
-      · exact h2
+      · by_cases hc5 : rv.crdt.kind = 5
+        · obtain ⟨m, hm⟩ := kind_hash hc5
+          rw [recordDelete_hash hg hm]
+          apply inv2_insert (vc := s.vclock) hinv h2 (by simp) (by simp)
+          exact Stamp.lt_irrefl _
+        · rw [recordDelete_other hg hc0 hc5]; exact h2
   | hwrite k fs =>
     simp only [LOp.toOp, step, recordHashWrite]
     have hc2 := hashSet_fold_clock fs s.clock
